@@ -284,7 +284,11 @@ func (in *Interp) note(s string) {
 func (in *Interp) addOutcome(kind, id, msg string, model map[string]string) {
 	key := kind + "|" + id + "|" + in.knownTag
 	in.perID[key]++
-	if in.perID[key] > 3 {
+	limit := 3
+	if in.intNondet > 0 || len(in.gs) > 1 {
+		limit = 10 // several variants: not every engine-internal choice can be forced natively
+	}
+	if in.perID[key] > limit {
 		return
 	}
 	mk := key + fmt.Sprint(model)
